@@ -29,7 +29,7 @@ def dense_ids(M, vc, n):
     return out
 
 
-def record(b, o, t, cart, f, partial_first=False):
+def record(b, o, t, cart, f, partial_first=False, with_pref=False):
     from molgri.space.fullgrid import FullGrid
     rec = dict(b=b, o=o, t=t, cartesian=cart, f=f, nP=0, nB=0, err="", posA=[], posB=[], posD=[], rotA=[], rotB=[], rotD=[],
                fullA=[], fullB=[], fullD=[], mulF=[], mulF2=[], vol=[], volTable=[], positive=True)
@@ -64,12 +64,30 @@ def record(b, o, t, cart, f, partial_first=False):
     except Exception as ex:
         rec["err"] = type(ex).__name__
         return rec
+    PF = None
+    if with_pref:          # growth G06 (not part of C02): FullGrid.get_full_prefactors and what the grid answers afterwards
+        rec.update(pref=[], prefT=[], prefPure=True, prefErr="")
+        try:
+            with quiet():
+                PF = fg.get_full_prefactors().tocoo()
+                FB2, FD2 = fg.get_full_borders().tocoo(), fg.get_full_distances().tocoo()
+                V2 = np.asarray(fg.get_total_volumes(), dtype=float)
+            rec["prefPure"] = bool(np.array_equal(FB2.data, FB.data) and np.array_equal(FB2.row, FB.row) and np.array_equal(FB2.col, FB.col)
+                                   and np.array_equal(FD2.data, FD.data) and np.array_equal(V2, V))
+        except Exception as ex:
+            rec["prefErr"] = type(ex).__name__
+            PF = None
     rec["nP"], rec["nB"] = nP, nB
     vc = ValueClasses(rel=1e-9, abs_=1e-13)
     src = [pB.data, pD.data, rB.data, rD.data]
     allsrc = np.concatenate([np.asarray(x, dtype=float) for x in src]) if any(len(x) for x in src) else np.zeros(0)
     table = np.outer(pV, rV) * f ** 3
     vc.add(allsrc, allsrc * f, allsrc * f * f, FB.data, FD.data, V, table, [1.0])
+    quot = None
+    if PF is not None and len(FB.data) == len(FD.data) and len(V) > int(FB.row.max(initial=-1)):
+        with np.errstate(all="ignore"):
+            quot = FB.data / FD.data / V[FB.row]
+        vc.add(PF.data, quot)
     one = lambda M, n: [[(1 if v else 0) for v in row] for row in (M.toarray() != 0)]
     rec["posA"], rec["rotA"] = one(pA, nP), one(rA, nB)
     rec["posB"], rec["posD"] = dense_ids(pB, vc, nP), dense_ids(pD, vc, nP)
@@ -87,6 +105,12 @@ def record(b, o, t, cart, f, partial_first=False):
     rec["mulF2"] = [[int(vc.ids(v)) + 1, int(vc.ids(v * f * f)) + 1] for v in uniq]
     rec["vol"] = [int(x) + 1 for x in vc.ids(V)]
     rec["volTable"] = [[int(x) + 1 for x in row] for row in vc.ids(table)]
+    if PF is not None:
+        rec["pref"] = [[int(i), int(j), int(vc.ids(float(v))) + 1] for i, j, v in zip(PF.row, PF.col, PF.data)]
+        if quot is not None:
+            rec["prefT"] = sorted({(int(vc.ids(float(bv))) + 1, int(vc.ids(float(dv))) + 1, int(vc.ids(float(V[r]))) + 1, int(vc.ids(float(q))) + 1)
+                                   for bv, dv, r, q in zip(FB.data, FD.data, FB.row, quot)})
+            rec["prefT"] = [list(x) for x in rec["prefT"]]
     rec["positive"] = bool(np.all(np.isfinite(FB.data)) and np.all(FB.data > 0) and np.all(np.isfinite(FD.data)) and np.all(FD.data > 0)
                            and np.all(np.isfinite(V)) and np.all(V > 0))
     return rec
